@@ -185,6 +185,11 @@ func metaString(h ...http.Header) string {
 
 // deliver replays a corpus body under a script and reports the observation.
 func deliver(w wireBody, sc memhttp.Script, dropTrailers bool) wireObs {
+	return deliverLimited(w, sc, dropTrailers, 0)
+}
+
+// deliverLimited is deliver with a read limit on the receiving side (0 = none).
+func deliverLimited(w wireBody, sc memhttp.Script, dropTrailers bool, limit int) wireObs {
 	var obs wireObs
 	cfg := Cfg{Proto: w.Proto, JSON: w.JSON, Comp: CompDefault, Kind: w.Kind, HTTP: 2}
 	if !w.Request {
@@ -196,7 +201,11 @@ func deliver(w wireBody, sc memhttp.Script, dropTrailers bool) wireObs {
 			}
 			return r
 		}
-		cl := NewClient(tr, cfg)
+		var copts []connect.ClientOption
+		if limit > 0 {
+			copts = append(copts, connect.WithReadMaxBytes(limit))
+		}
+		cl := NewClient(tr, cfg, copts...)
 		var res CallResult
 		obs.Guard = Guarded(func() { res = RunCall(context.Background(), cl, w.Kind, [][]byte{{1}}, nil) }, tr)
 		obs.Msgs = res.Msgs
@@ -223,7 +232,7 @@ func deliver(w wireBody, sc memhttp.Script, dropTrailers bool) wireObs {
 			obs.Msgs = append(obs.Msgs, cloneBytes(m.Value))
 		}
 		return s.Send(&BV{Value: []byte{1}})
-	})
+	}, limitOption(limit)...)
 	req := httptest.NewRequest("POST", "http://mem.test"+Procedure, memhttp.NewScriptReader(nil, w.Body, sc))
 	req.ProtoMajor, req.ProtoMinor, req.Proto = 2, 0, "HTTP/2.0"
 	req.Header = w.Header.Clone()
@@ -234,23 +243,56 @@ func deliver(w wireBody, sc memhttp.Script, dropTrailers bool) wireObs {
 	return obs
 }
 
+func limitOption(limit int) []connect.HandlerOption {
+	if limit > 0 {
+		return []connect.HandlerOption{connect.WithReadMaxBytes(limit)}
+	}
+	return nil
+}
+
+// bodyLimits returns the read limits worth trying with a body: one below the
+// largest frame (the oversize / discard path) and exactly the largest frame.
+func bodyLimits(w wireBody) []int {
+	largest := 0
+	if w.Proto == PConnect && w.Kind == KUnary {
+		largest = len(w.Body)
+	} else {
+		off := 0
+		for off+5 <= len(w.Body) {
+			l := int(w.Body[off+1])<<24 | int(w.Body[off+2])<<16 | int(w.Body[off+3])<<8 | int(w.Body[off+4])
+			if l > largest {
+				largest = l
+			}
+			off += 5 + l
+		}
+	}
+	if largest < 2 || largest > 4096 {
+		return nil
+	}
+	return []int{largest - 1, largest}
+}
+
 // ---------------------------------------------------------------- C03
 
 type c03Case struct {
 	Body   wireBody       `json:"body"`
 	Script memhttp.Script `json:"script"`
+	Limit  int            `json:"limit,omitempty"` // read limit on the receiving side
 }
 
 func c03Check(c *ev.Collector, k c03Case, baseline wireObs) {
-	obs := deliver(k.Body, k.Script, false)
+	obs := deliverLimited(k.Body, k.Script, false, k.Limit)
 	tags := []string{"proto=" + k.Body.Proto.String(), "kind=" + k.Body.Kind.String(), map[bool]string{true: "dir=request", false: "dir=response"}[k.Body.Request]}
+	if k.Limit > 0 {
+		tags = append(tags, "read-limit")
+	}
 	if k.Script.WithLast {
 		tags = append(tags, "eof-with-last-data")
 	}
 	c.AddTransitions(int64(len(k.Script.Chunks) + 2))
 	c.AddStates(int64(len(k.Script.Chunks) + 1))
 	c.AddTraces(1)
-	desc := fmt.Sprintf("%s chunks=%v stride=%d eofWithLast=%v", k.Body.key(), k.Script.Chunks, k.Script.Stride, k.Script.WithLast)
+	desc := fmt.Sprintf("%s limit=%d chunks=%v stride=%d eofWithLast=%v", k.Body.key(), k.Limit, k.Script.Chunks, k.Script.Stride, k.Script.WithLast)
 	switch {
 	case obs.Guard.Panicked:
 		c.Violation("TestC03", "no-panic", "panic", tags, k, "%s: panic %v\n%s", desc, obs.Guard.Panic, obs.Guard.Stack)
@@ -375,7 +417,7 @@ func c03Scripts(w wireBody, thorough bool, f func(memhttp.Script) bool) {
 func TestC03(t *testing.T) {
 	c := ev.New("C03")
 	defer func() { _ = c.Finish() }()
-	c.SetRule("environment-answer enumeration: a corpus of valid request and response bodies captured from real peers (the library itself and the reference encoder; one message, a-z-b, zero messages, error end with details, gzip, metadata, large) per protocol is replayed to the real client / handler under every segmentation into non-empty reads (all 2^(n-1) for bodies up to 12 (quick) / 16 (thorough) bytes; for longer ones every choice of <= 2 / 3 cut positions, all strides 1..8, for 70 KiB bodies every position around each 5-byte prefix and payload boundary) x {EOF on a separate read, EOF returned with the last data}; differential oracle: observation (messages, end of stream or error code and text, metadata) identical to the one-piece delivery; runs in a bubble so a stuck read loop is a deterministic deadlock; distinct = (body, script); non-trivial = more than one read")
+	c.SetRule("environment-answer enumeration: a corpus of valid request and response bodies captured from real peers (the library itself and the reference encoder; one message, a-z-b, zero messages, error end with details, gzip, metadata, large) per protocol is replayed to the real client / handler under every segmentation into non-empty reads (all 2^(n-1) for bodies up to 12 (quick) / 16 (thorough) bytes; for longer ones every choice of <= 2 / 3 cut positions, all strides 1..8, for 70 KiB bodies every position around each 5-byte prefix and payload boundary) x {EOF on a separate read, EOF returned with the last data}; each body also under a read limit one below and exactly at its largest frame (every single cut, strides 1..3); differential oracle: observation (messages, end of stream or error code and text, metadata) identical to the one-piece delivery; runs in a bubble so a stuck read loop is a deterministic deadlock; distinct = (body, script); non-trivial = more than one read")
 	c.Assume("segmentation is applied at the io.Reader the library reads from (Response.Body / Request.Body)")
 	thorough := ev.Thorough()
 	if ev.ReplayFile() != "" {
@@ -384,7 +426,7 @@ func TestC03(t *testing.T) {
 			t.Fatal(err)
 		}
 		Bubble(t, func() {
-			base := deliver(k.Body, memhttp.Script{Cut: -1, End: "eof"}, false)
+			base := deliverLimited(k.Body, memhttp.Script{Cut: -1, End: "eof"}, false, k.Limit)
 			c03Check(c, k, base)
 		})
 		return
@@ -438,6 +480,39 @@ func TestC03(t *testing.T) {
 		flush()
 		if stop {
 			break
+		}
+		// the same body under a read limit (oversize / discard path and exact fit): every single cut and small strides
+		for _, limit := range bodyLimits(w) {
+			var lbase wireObs
+			Bubble(t, func() { lbase = deliverLimited(w, memhttp.Script{Cut: -1, End: "eof"}, false, limit) })
+			var scripts []memhttp.Script
+			n := len(w.Body)
+			for _, wl := range []bool{false, true} {
+				for cut := 1; cut < n; cut++ {
+					scripts = append(scripts, memhttp.Script{Chunks: []int{cut, n - cut}, Cut: -1, End: "eof", WithLast: wl})
+				}
+				for _, stride := range []int{1, 2, 3} {
+					scripts = append(scripts, memhttp.Script{Stride: stride, Cut: -1, End: "eof", WithLast: wl})
+				}
+				scripts = append(scripts, memhttp.Script{Cut: -1, End: "eof", WithLast: wl})
+			}
+			var mine []memhttp.Script
+			for _, sc := range scripts {
+				idx++
+				if ev.Mine(idx) {
+					mine = append(mine, sc)
+				}
+			}
+			if len(mine) == 0 {
+				continue
+			}
+			Bubble(t, func() {
+				for _, sc := range mine {
+					k := c03Case{Body: w, Script: sc, Limit: limit}
+					c.Case(fmt.Sprintf("%s|limit%d|%v|%d|%v", w.key(), limit, sc.Chunks, sc.Stride, sc.WithLast), true)
+					c03Check(c, k, lbase)
+				}
+			})
 		}
 	}
 	_ = bytes.Equal
